@@ -10,6 +10,7 @@ pub mod c20;
 pub mod e2smoke;
 pub mod wvr;
 pub mod c05;
+pub mod c06;
 pub mod c07;
 pub mod c08;
 pub mod c09;
@@ -62,6 +63,7 @@ pub fn spec(id: &str) -> Option<Spec> {
     "C03" => Some(c03::spec()),
     "C04" => Some(c04::spec()),
     "C05" => Some(c05::spec()),
+    "C06" => Some(c06::spec()),
     "C07" => Some(c07::spec()),
     "C08" => Some(c08::spec()),
     "C09" => Some(c09::spec()),
@@ -80,6 +82,7 @@ pub fn run(id: &str, tier: &str, ctx: &mut Ctx) -> Check {
     "C03" => c03::run(tier, ctx),
     "C04" => c04::run(tier, ctx),
     "C05" => c05::run(tier, ctx),
+    "C06" => c06::run(tier, ctx),
     "C07" => c07::run(tier, ctx),
     "C08" => c08::run(tier, ctx),
     "C09" => c09::run(tier, ctx),
